@@ -398,7 +398,8 @@ type sim struct {
 	hkinds    []string
 	hostileBad bool // a non-benign hostile item was written
 	panics    []string
-	maxAlloc  uint64
+	preWake   func()
+	lastMove  int
 	over      [2]*overRec
 	quiet     bool // Finish: no event-log lines (schedule may be racy there by design)
 	wasDown   [2]bool
@@ -938,36 +939,59 @@ func (s *sim) opTick(d time.Duration, final bool) bool {
 // watchdog) is alive while it is read.
 func (s *sim) step(to, n int) bool {
 	e := s.env
-	measure := s.c[to].mc != nil && e.Checking("C17")
-	var m0, m1 runtime.MemStats
-	if measure {
-		runtime.ReadMemStats(&m0)
-	}
+	// Only the hostile writer can announce what it does not send; and only runtime.ReadMemStats
+	// is exact (it flushes the per-P allocation caches; the cheaper runtime/metrics counter lags
+	// by up to a span per size class, which showed as spurious 0.7 MB deltas). It stops the
+	// world, so it is used for the deliveries of hostile runs only.
+	measure := s.mode == "hostile" && to == 1 && s.c[to].mc != nil && e.Checking("C17")
+	var a0 uint64
 	s.mu.Lock()
+	if measure {
+		// read at the last moment before a goroutine of the node is woken: the simulator's own
+		// buffer handling inside deliver is not the node's allocation
+		s.preWake = func() { a0 = heapAllocs() }
+	}
 	ok := s.deliver(to, n)
+	if s.preWake != nil {
+		s.preWake()
+		s.preWake = nil
+	}
 	s.mu.Unlock()
 	if !ok {
 		return false
 	}
 	e.Settle()
 	if measure {
-		runtime.ReadMemStats(&m1)
+		d := heapAllocs() - a0
 		bound := uint64(512 << 10)
+		capMax := 0
 		for _, ch := range s.c[to].chans {
 			if b := uint64(8*(ch.rcap+s.payload+64)) + 512<<10; b > bound {
-				bound = b
+				bound, capMax = b, ch.rcap
 			}
 		}
-		if d := m1.TotalAlloc - m0.TotalAlloc; d > bound {
+		if d > bound {
 			e.Count("probe.alloc_over_bound")
-			e.Fail("C17", "alloc-beyond-capacity", "delivering one chunk (at most one packet) to conn %d made the process allocate %d bytes; largest channel capacity %d, packet payload %d, allowed %d", to, d, (bound-512<<10)/8-uint64(s.payload)-64, s.payload, bound)
-		}
-		if d := m1.TotalAlloc - m0.TotalAlloc; d > s.maxAlloc {
-			s.maxAlloc = d
+			e.Fail("C17", "alloc-beyond-capacity", "handling one delivery (at most one packet, %d bytes) made conn %d's process allocate %d bytes; largest channel capacity %d, packet payload %d, allowed %d", s.lastMove, to, d, capMax, s.payload, bound)
 		}
 	}
 	s.after()
 	return true
+}
+
+// heapAllocs: cumulative bytes allocated on the heap by the process (exact).
+func heapAllocs() uint64 {
+	var m runtime.MemStats
+	runtime.ReadMemStats(&m)
+	return m.TotalAlloc
+}
+
+// wake is called by deliver right before it lets a goroutine of the node continue.
+func (s *sim) wake() {
+	if s.preWake != nil {
+		s.preWake()
+		s.preWake = nil
+	}
 }
 
 // deliver moves up to n bytes of the wire towards end `to`, never beyond the end of the first
@@ -979,6 +1003,7 @@ func (s *sim) deliver(to, n int) bool {
 		if h.finQueued && !h.finDeliv {
 			h.finDeliv = true
 			e.rst = true
+			s.wake()
 			if e.rreq != nil && len(h.avail) == 0 {
 				e.rreq.err = io.EOF
 				close(e.rreq.done)
@@ -1009,8 +1034,15 @@ func (s *sim) deliver(to, n int) bool {
 		}
 	}
 	chunk := h.wire[:move]
-	h.pktBuf = append(h.pktBuf, chunk...)
-	h.avail = append(h.avail, chunk...)
+	s.lastMove = move
+	if !h.fr.garbage || len(h.ends) > 0 {
+		h.pktBuf = append(h.pktBuf, chunk...)
+	}
+	if len(h.avail) == 0 {
+		h.avail = chunk[:move:move] // shares the wire's array (capacity cut: appends copy); the wire only grows behind it
+	} else {
+		h.avail = append(h.avail, chunk...)
+	}
 	h.wire = h.wire[move:]
 	h.dTotal += int64(move)
 	if complete {
@@ -1020,6 +1052,7 @@ func (s *sim) deliver(to, n int) bool {
 	} else if h.fr.garbage && len(h.ends) == 0 {
 		h.pktBuf = h.pktBuf[:0]
 	}
+	s.wake()
 	if e.rreq != nil {
 		rq := e.rreq
 		rq.n = copy(rq.buf, h.avail)
